@@ -216,7 +216,8 @@ class FortranEngine:
             max_iter,
             tol,
             offset,
-            [self.names.index(x) for x in self.check],
+            # (one-based variable numbers: Fortran array subscripts start at 1)
+            [self.names.index(x) + 1 for x in self.check],
             self._FAILURE_OPTIONS[failures],
             self._ERROR_OPTIONS[errors],
         )
@@ -424,7 +425,8 @@ class FortranEngine:
             max_iter,
             tol,
             offset,
-            [self.names.index(x) for x in self.check],
+            # (one-based variable numbers: Fortran array subscripts start at 1)
+            [self.names.index(x) + 1 for x in self.check],
             self._ERROR_OPTIONS[errors],
         )
 
